@@ -14,6 +14,90 @@ Open Scope Z_scope.
 Definition removed_evs (t : Z) (l : list info) : list event :=
   map (fun i => ERemoved (i_key i) (i_t0 i)) (filter (fun i => ends_after i t) l).
 
+(* ---- 0. collections.Counter: giving trials back per (key, count) item = one per occurrence ---- *)
+Lemma zupd_comm {A} (f g : A -> A) : (forall x, f (g x) = g (f x)) ->
+  forall l i j, zupd (zupd l i f) j g = zupd (zupd l j g) i f.
+Proof.
+  intros H. induction l as [|x l IH]; intros i j; [reflexivity|].
+  destruct i, j; cbn [zupd]; try reflexivity.
+  - now rewrite H.
+  - now rewrite IH.
+Qed.
+
+Lemma zupd_merge {A} (f g : A -> A) : forall l i, zupd (zupd l i f) i g = zupd l i (fun x => g (f x)).
+Proof. induction l as [|x l IH]; intros i; [reflexivity|]. destruct i; cbn [zupd]; [reflexivity|now rewrite IH]. Qed.
+
+Lemma zupd_ext {A} (f g : A -> A) : (forall x, f x = g x) -> forall l i, zupd l i f = zupd l i g.
+Proof. intros H. induction l as [|x l IH]; intros i; [reflexivity|]. destruct i; cbn [zupd]; [now rewrite H|now rewrite IH]. Qed.
+
+Lemma add_trials_add n m e : add_trials m (add_trials n e) = add_trials (n + m) e.
+Proof. destruct e; unfold add_trials; cbn. f_equal. lia. Qed.
+
+Lemma upd_add_comm d a n b m :
+  upd_entry (upd_entry d a (add_trials n)) b (add_trials m) = upd_entry (upd_entry d b (add_trials m)) a (add_trials n).
+Proof.
+  unfold upd_entry. destruct (a <? 0), (b <? 0); try reflexivity.
+  apply zupd_comm. intros x. rewrite !add_trials_add. f_equal. lia.
+Qed.
+
+Lemma upd_add_merge d k n m : upd_entry (upd_entry d k (add_trials n)) k (add_trials m) = upd_entry d k (add_trials (n + m)).
+Proof.
+  unfold upd_entry. destruct (k <? 0); [reflexivity|]. rewrite zupd_merge. apply zupd_ext. intros x. apply add_trials_add.
+Qed.
+
+Definition counter_apply (c : list (Z * Z)) (d : list entry) : list entry :=
+  fold_left (fun d kc => upd_entry d (fst kc) (add_trials (snd kc))) c d.
+
+Lemma counter_apply_upd c : forall d k n,
+  counter_apply c (upd_entry d k (add_trials n)) = upd_entry (counter_apply c d) k (add_trials n).
+Proof.
+  induction c as [|[k' n'] c IH]; intros d k n; [reflexivity|].
+  unfold counter_apply in *. cbn [fold_left fst snd]. rewrite upd_add_comm. apply IH.
+Qed.
+
+Lemma counter_apply_add k : forall c d, counter_apply (counter_add k c) d = upd_entry (counter_apply c d) k (add_trials 1).
+Proof.
+  induction c as [|[k' n] c IH]; intros d; [reflexivity|]. cbn [counter_add].
+  destruct (k =? k') eqn:E.
+  - assert (k = k') by lia. subst k'. unfold counter_apply. cbn [fold_left fst snd].
+    rewrite <- upd_add_merge. apply counter_apply_upd.
+  - unfold counter_apply in *. cbn [fold_left fst snd]. apply IH.
+Qed.
+
+Lemma counter_apply_fold l : forall c d,
+  counter_apply (fold_left (fun c k => counter_add k c) l c) d
+  = fold_left (fun d k => upd_entry d k (add_trials 1)) l (counter_apply c d).
+Proof.
+  induction l as [|a l IH]; intros c d; [reflexivity|]. cbn [fold_left]. rewrite IH, counter_apply_add. reflexivity.
+Qed.
+
+(* giving the trials back per Counter item is giving one back per occurrence *)
+Lemma py_counter_apply l d : counter_apply (py_counter l) d = fold_left (fun d k => upd_entry d k (add_trials 1)) l d.
+Proof. unfold py_counter. now rewrite counter_apply_fold. Qed.
+
+Lemma counter_add_keys k c kc : In kc (counter_add k c) -> fst kc = k \/ exists kc', In kc' c /\ fst kc' = fst kc.
+Proof.
+  induction c as [|[k' n] c IH]; cbn [counter_add In].
+  - intros [<-|[]]. now left.
+  - destruct (k =? k') eqn:E; cbn [In].
+    + intros [<-|H]; [right; exists (k', n); cbn; auto|right; exists kc; auto].
+    + intros [<-|H]; [right; exists (k', n); cbn; auto|].
+      destruct (IH H) as [H1|(kc' & H1 & H2)]; [now left|right; exists kc'; auto].
+Qed.
+
+Lemma py_counter_keys l kc : In kc (py_counter l) -> In (fst kc) l.
+Proof.
+  unfold py_counter. assert (H : forall l c, In kc (fold_left (fun c k => counter_add k c) l c) ->
+                                 In (fst kc) l \/ exists kc', In kc' c /\ fst kc' = fst kc).
+  { induction l0 as [|a l0 IH]; intros c Hin; cbn [fold_left] in Hin.
+    - right. exists kc. auto.
+    - destruct (IH _ Hin) as [H1|(kc' & H1 & H2)]; [left; now right|].
+      destruct (counter_add_keys _ _ _ H1) as [H3|(kc2 & H3 & H4)].
+      + left. left. congruence.
+      + right. exists kc2. split; [auto|congruence]. }
+  intros Hin. destruct (H l [] Hin) as [H1|(kc' & [] & _)]. exact H1.
+Qed.
+
 (* ---- 1. the pieces, on any object ---- *)
 Lemma tie_ends_after self i t : g__ends_after self i t = GOk self (ends_after i t).
 Proof. reflexivity. Qed.
@@ -77,24 +161,26 @@ Proof.
       + apply IH.
       + rewrite IH. destruct s as [q ev]; destruct q; reflexivity. }
   rewrite H2. cbn [gbind].
-  (* third loop: one trial back per occurrence *)
-  match goal with |- context[gfoldl ?f l ?s0 tt] => set (F3 := f); set (S0 := s0) end.
-  assert (H3 : forall lk s, Forall (fun k => 0 <= k < zlen (f_data s)) lk ->
-                 gfoldl F3 lk s tt = GOk (set_data s (fold_left (fun d k => upd_entry d k (add_trials 1)) lk (f_data s))) tt).
-  { induction lk as [|k lk IH]; intros s Hf; cbn [gfoldl fold_left].
-    - now rewrite set_data_id.
-    - inversion Hf as [|? ? Hk0 Hf']; subst. unfold F3 at 1. unfold lookup.
+  (* third loop: the trials given back, per item of Counter(to_requeue) *)
+  match goal with |- context[gfoldl ?f (py_counter l) ?s0 tt] => set (F3 := f); set (S0 := s0) end.
+  assert (H3 : forall c s, Forall (fun kc => 0 <= fst kc < zlen (f_data s)) c ->
+                 gfoldl F3 c s tt = GOk (set_data s (counter_apply c (f_data s))) tt).
+  { induction c as [|[k n] c IH]; intros s Hf; cbn [gfoldl].
+    - unfold counter_apply. cbn [fold_left]. now rewrite set_data_id.
+    - inversion Hf as [|? ? Hk0 Hf']; subst. cbn [fst snd] in Hk0. unfold F3 at 1. cbn [fst snd]. unfold lookup.
       destruct (proj2 (znth_valid (f_data s) k) Hk0) as [e He]. rewrite He. cbn [gtry].
       rewrite IH.
-      + destruct s as [q ev]; destruct q; reflexivity.
-      + replace (zlen (f_data (set_data s (upd_entry (f_data s) k (add_trials 1))))) with (zlen (f_data s)); [exact Hf'|].
+      + unfold counter_apply. cbn [fold_left fst snd]. destruct s as [q ev]; destruct q; reflexivity.
+      + replace (zlen (f_data (set_data s (upd_entry (f_data s) k (add_trials n))))) with (zlen (f_data s)); [exact Hf'|].
         destruct s as [q ev]; destruct q; cbn. now rewrite zlen_upd_entry. }
   rewrite H3.
   2:{ subst S0. replace (zlen (f_data (set_ordering self (requeue_ord l (f_ordering self))))) with (zlen (f_data self))
         by (destruct self as [q ev]; destruct q; reflexivity).
-      unfold l. unfold log_keys_in in Hk. rewrite Forall_forall in *. intros k Hin.
-      apply in_map_iff in Hin. destruct Hin as (i & <- & Hi). apply filter_In in Hi. destruct Hi as [Hi _].
+      unfold log_keys_in in Hk. rewrite Forall_forall in *. intros kc Hkc. apply py_counter_keys in Hkc.
+      unfold l in Hkc. apply in_map_iff in Hkc. destruct Hkc as (i & Hi0 & Hi). rewrite <- Hi0.
+      apply filter_In in Hi. destruct Hi as [Hi _].
       apply filter_In in Hi. destruct Hi as [Hi _]. apply Hk. now apply in_rev. }
+  rewrite py_counter_apply.
   cbn [gbind]. subst S0.
   replace (f_data (set_ordering self (requeue_ord l (f_ordering self)))) with (f_data self)
     by (destruct self as [q ev]; destruct q; reflexivity).
